@@ -20,6 +20,7 @@ import (
 	"verifharness/core"
 	"verifharness/env"
 	"verifharness/vmesh"
+	"verifharness/wire"
 )
 
 func init() {
@@ -161,6 +162,10 @@ type variant struct {
 	depth     int
 	field     string
 	multi     bool // built from >= 2 announcements
+	// poison: before the variant is delivered, the victim receives (and must refuse) a peering request that names
+	// address poisonIP but carries and is signed with the key of poisonKey
+	poisonIP  netip.Addr
+	poisonKey *m.Address
 }
 
 func withApx(c *capture, apx []byte) []byte {
@@ -372,6 +377,35 @@ func genVariants(r *rand.Rand, c *capture, all []*capture, idsByIP map[netip.Add
 			}
 		}
 	}
+	// an inner hop record that names router X under a foreign key (signed with that key), below a genuine outer
+	// record re-signed by its real owner - delivered to a victim that does not know X, and to one that just
+	// refused a peering request claiming X's address with that foreign key
+	if depthN >= 2 {
+		outer, inner1 := c.layers[0], c.layers[1]
+		signer := idsByIP[outer.Router.IP]
+		var foreign *m.Address
+		for _, other := range c.ids {
+			if other.IP != outer.Router.IP && other.IP != c.origin && other.IP != inner1.Router.IP {
+				foreign = other
+				break
+			}
+		}
+		if signer != nil && foreign != nil {
+			in := inner1
+			in.Router = m.PublicAddress{IP: inner1.Router.IP, Hash: foreign.Hash, Type: foreign.Type, PublicKey: foreign.PublicKey}
+			inBody, _ := cbor.Marshal(in)
+			if inSig, err := foreign.SignWithContext(inBody, signingContext(c.data)); err == nil {
+				att := outer
+				att.NextAttachment = append(inBody, inSig...)
+				body, _ := cbor.Marshal(att)
+				if sig, err := signer.SignWithContext(body, signingContext(c.data)); err == nil {
+					d := withApx(c, append(body, sig...))
+					vs = append(vs, variant{op: "inner-record-under-foreign-key", data: d, viaPeer: c.sender, field: "layers-resigned", depth: 1})
+					vs = append(vs, variant{op: "inner-record-under-foreign-key-after-refused-peering", data: d, viaPeer: c.sender, field: "layers-resigned", depth: 1, poisonIP: inner1.Router.IP, poisonKey: foreign})
+				}
+			}
+		}
+	}
 	// garbage appendices
 	vs = append(vs, variant{op: "appendix-garbage", data: withApx(c, core.RandBytes(r, 65+r.IntN(200))), viaPeer: c.sender, field: "appendix", depth: 0})
 	if depthN == 0 {
@@ -379,6 +413,59 @@ func genVariants(r *rand.Rand, c *capture, all []*capture, idsByIP map[netip.Add
 		vs = append(vs, variant{op: "appendix-truncated-signature-only", data: withApx(c, core.RandBytes(r, 64)), viaPeer: c.sender, field: "appendix", depth: 0})
 	}
 	return vs
+}
+
+// refusedPeering lets the victim receive a peering request that claims address ip with the key pair of key
+// (correctly signed with it). The address does not derive from that key: the victim must refuse and register no link.
+func refusedPeering(res *core.Result, vc *victim, ip netip.Addr, key *m.Address, r *rand.Rand) bool {
+	req := map[string]any{"v": "v0.0.0", "a": m.PublicAddress{IP: ip, Hash: key.Hash, Type: key.Type, PublicKey: key.PublicKey}, "c": core.RandBytes(r, 32), "lv": 1, "tmtu": 9000}
+	body, err := cbor.Marshal(req)
+	if err != nil {
+		return true
+	}
+	f, err := vc.v.Inst.BuilderV.NewFrameV1(ip, m.RouterAddress, frame.RouterPing, nil, body, nil)
+	if err != nil {
+		return true
+	}
+	f.SetTTL(0)
+	f.SetSequenceTime(time.Now().Round(time.Millisecond).Add(-time.Millisecond))
+	_ = f.SignRaw(key.PrivateKey)
+	f.SetTTL(1)
+	fd, _ := f.FrameDataWithMargins(0, 0)
+	msg := make([]byte, 2+len(fd))
+	msg[0], msg[1] = byte(len(msg)>>8), byte(len(msg))
+	copy(msg[2:], fd)
+	f.ReturnToPool()
+	w := wire.New()
+	done := make(chan struct{})
+	go func() {
+		vc.v.Inst.PeeringV.VerifSetupLinkAsListener(w.B, wire.URL)
+		close(done)
+	}()
+	w.Inject(wire.AtoB, msg)
+	deadline := time.Now().Add(5 * time.Second)
+	for w.SentCount(wire.BtoA) < 2 && time.Now().Before(deadline) {
+		select {
+		case <-done:
+			deadline = time.Now()
+		default:
+			time.Sleep(200 * time.Microsecond)
+		}
+	}
+	w.A.Close()
+	w.B.Close()
+	select {
+	case <-done:
+	case <-time.After(10 * time.Second):
+		res.Inconcl("refused peering: setup did not return")
+		return false
+	}
+	if vc.v.Inst.PeeringV.GetLink(ip) != nil {
+		res.Violate("link-registered-for-foreign-key", fmt.Sprintf("a peering request naming %s under a foreign key was not refused", ip), nil)
+		return false
+	}
+	res.Count("refused_peering_requests_before_forgery", 1)
+	return true
 }
 
 func runVariants(res *core.Result, r *rand.Rand, caps []*capture, idV *m.Address, spare *m.Address, flips int, perCapture func(*capture) bool) {
@@ -405,6 +492,17 @@ func runVariants(res *core.Result, r *rand.Rand, caps []*capture, idV *m.Address
 			if err != nil {
 				res.Inconcl("victim: %v", err)
 				return
+			}
+			if v.poisonKey != nil {
+				known, knows = nil, "fresh-victim"
+				vc, err = newVictim(idV, []*m.Address{v.viaPeer, spare}, nil)
+				if err != nil {
+					res.Inconcl("victim: %v", err)
+					return
+				}
+				if !refusedPeering(res, vc, v.poisonIP, v.poisonKey, r) {
+					return
+				}
 			}
 			before := vc.tableKey()
 			p := &vmesh.Packet{From: 1, To: 0, Data: v.data}
@@ -501,6 +599,45 @@ func runVariants(res *core.Result, r *rand.Rand, caps []*capture, idV *m.Address
 				}
 			}
 			res.Count("tampered_redeliveries_rejected", 6)
+			// a second authentic announcement (another origin, same delivering peer) on the same router: what the
+			// first one left behind (records of relays it met for the first time) must not make it fail
+			if v.op == "authentic/"+knows && len(c.layers) >= 2 {
+				for _, c2 := range caps {
+					if c2.sender.IP != c.sender.IP || c2.origin == c.origin || len(c2.layers) < 1 || c2.meshID != c.meshID {
+						continue
+					}
+					shares := false
+					for _, l2 := range c2.layers {
+						for _, l1 := range c.layers[:len(c.layers)-1] {
+							if l2.Router.IP == l1.Router.IP {
+								shares = true
+							}
+						}
+					}
+					if !shares {
+						continue
+					}
+					b2 := vc.tableKey()
+					vc.ms.DeliverOn(&vmesh.Packet{From: 1, To: 0, Data: c2.data}, 0, 1)
+					if len(vc.ms.Panics) > 0 {
+						res.Violate("handler-panic:second-authentic", fmt.Sprintf("second authentic announcement: %v", vc.ms.Panics[0]), wit)
+						return
+					}
+					has := false
+					for _, e := range vc.v.Inst.RouterV.Table().VerifEntries() {
+						if e.DstIP == c2.origin {
+							has = true
+						}
+					}
+					if vc.tableKey() == b2 || !has {
+						res.Violate("authentic-announcement-not-accepted:after-an-earlier-one", fmt.Sprintf("after an authentic announcement of %s (%d hop records) was accepted, a second authentic announcement of %s (%d hop records, sharing relays with the first) delivered by the same peer added no route", c.origin, len(c.layers), c2.origin, len(c2.layers)),
+							map[string]any{"operator": "second-authentic", "first_origin": c.origin.String(), "second_origin": c2.origin.String(), "case_id": "second-authentic"})
+						return
+					}
+					res.Count("second_authentic_accepted", 1)
+					break
+				}
+			}
 			res.Count("accepted_authentic", 1)
 			if len(c.layers) > int(res.Counter("max_authentic_depth")) {
 				res.Count("max_authentic_depth", int64(len(c.layers))-res.Counter("max_authentic_depth"))
